@@ -335,7 +335,12 @@ func (r *renderer) arg(a string) {
 	case 2:
 		qc := r.qcol
 		lit := l.R != nil && l.R.Bool()
-		r.write(`"` + encodeDouble(a, qc, lit) + `"`)
+		enc := `"` + encodeDouble(a, qc, lit) + `"`
+		r.write(enc)
+		if l.R != nil && l.Trivia > 0 && strings.Contains(enc, "\n") && !strings.Contains(enc, "*/") && l.R.Chance(1, 4) {
+			// the same text once more, as a comment behind the argument (at another column): trivia
+			r.write(" /* " + enc + " */")
+		}
 	case 3:
 		// split into 2-3 pieces at rune boundaries
 		rs := []rune(a)
